@@ -1,6 +1,7 @@
 import MimicProofs.Results
 import Mimic.ResultsTables
 import MimicProofs.Types
+import MimicProofs.ResultsCode
 /-!
 # C05 — Clients decode exactly the values the application returned (text and binary)
 
@@ -127,5 +128,15 @@ theorem code_str_roundtrip (s rest : Mimic.Wire.Bytes) (h : s.length < 2 ^ 63) :
 /-- every function of `types.py` is either translated or on the list of hand-modelled ones -/
 theorem types_coverage :
     Mimic.Extracted.Types.skipped = ["peek", "read_double", "read_float", "read_str_null"] ∧ Mimic.Extracted.Types.translated.length = 25 := by decide
+
+/-- **the temporal encoders of `results.py`, translated from the source on every run, are the model's**:
+    `_binary_encode_date` on datetime and date values and `_binary_encode_timedelta`, for all field values -/
+theorem temporal_encoders_are_code (y mo d h mi s us : Nat) (dur : Int) :
+    Mimic.Extracted.ResultsCode.binary_encode_datetime y mo d h mi s us = binDate y mo d h mi s us ∧
+    Mimic.Extracted.ResultsCode.binary_encode_date y mo d = binDate y mo d 0 0 0 0 ∧
+    Mimic.Extracted.ResultsCode.binary_encode_timedelta (if dur < 0 then 1 else 0) (dur.natAbs / 1000000 / 86400)
+      (dur.natAbs / 1000000 % 86400) (dur.natAbs % 1000000) = binDur dur :=
+  ⟨MimicProofs.ResultsCode.binary_encode_datetime_eq y mo d h mi s us, MimicProofs.ResultsCode.binary_encode_date_eq y mo d,
+   MimicProofs.ResultsCode.binary_encode_timedelta_eq dur⟩
 
 end MimicProps.C05
